@@ -53,11 +53,17 @@ type Result struct {
 	Extra       map[string]interface{}
 	floors      map[string]int
 	seen        map[string]int
+	seenAt      map[string]*Obligation
 }
 
 func NewResult(prop string) *Result {
 	return &Result{Property: prop, Extra: map[string]interface{}{}, floors: map[string]int{}}
 }
+
+// MergeSamePos, when set, reports whether a position lies in the declaration of a helper that the loader expanded at its
+// call sites. A construct of such a helper that is met twice in one function (the helper was expanded twice there) is one
+// construct: it keeps one key and holds only if it holds in every expansion.
+var MergeSamePos func(pos string) bool
 
 func (r *Result) Add(o *Obligation) *Obligation {
 	// a scoped borrow keeps only the obligations that are necessary conditions of the borrowing property
@@ -70,6 +76,18 @@ func (r *Result) Add(o *Obligation) *Obligation {
 	}
 	o.Rule = r.qualify(o.Rule)
 	base := o.Key()
+	if MergeSamePos != nil && o.Pos != "" && o.Pos != "-" && MergeSamePos(o.Pos) {
+		if r.seenAt == nil {
+			r.seenAt = map[string]*Obligation{}
+		}
+		if prev := r.seenAt[base+"@"+o.Pos]; prev != nil {
+			if o.Status == Violation && prev.Status != Violation {
+				prev.Status, prev.Detail, prev.By = o.Status, o.Detail, o.By
+			}
+			return prev
+		}
+		r.seenAt[base+"@"+o.Pos] = o
+	}
 	r.seen[base]++
 	if n := r.seen[base]; n > 1 {
 		o.Construct = fmt.Sprintf("%s #%d", o.Construct, n)
